@@ -149,7 +149,7 @@ fn c08_fixed_size_kinds() {
     }
 }
 
-// @check props=C08 tier=quick
+// @check props=C08 tier=thorough
 // @desc INFO_TS with a timestamp (seconds and fraction over the full u32 range) and with the invalidate flag (no timestamp on the wire, decodes to TIME_INVALID) round-trips; octetsToNextHeader = 8 / 0
 // @bounds timestamp symbolic; both flag values; messages 32 / 24 bytes; unwind 36
 // @enc rtps_messages::overall_structure::RtpsMessageWrite::new
@@ -283,7 +283,7 @@ fn gap_trip<const N: usize, const W: usize>(nb: u32) {
     core::mem::forget(w);
 }
 
-// @check props=C08 tier=quick
+// @check props=C08 tier=thorough
 // @desc GAP with gap_start over the full i64 range and a gap list of numBits = 41 (two bitmap words, lower membership symbolic), any base: ids, start and list round-trip; octetsToNextHeader = 28 + 4 * ceil(numBits / 32)
 // @bounds numBits = 41; message 60 bytes; unwind 64
 // @assume set values obtained from the real element decoder (see c08_acknack)
@@ -409,7 +409,7 @@ fn data_trip<const N: usize, const P: usize>(qos: bool, d_flag: bool, k_flag: bo
     extreme
 }
 
-// @check props=C08 tier=quick
+// @check props=C08 tier=thorough
 // @desc DATA without inline QoS (flag D) and a 5-byte payload (not a multiple of 4): flags, ids, writerSN (full i64) and payload bytes round-trip; octetsToNextHeader = 20 + 5
 // @bounds payload 5 symbolic bytes; message 49 bytes; unwind 52
 // @enc rtps_messages::overall_structure::RtpsMessageWrite::new
